@@ -187,7 +187,21 @@ std::string run_case(Src& s, CaseInfo& ci)
       c.bufs.push_back(b);
     }
     else
-      c.bufs.push_back(gen_text_buffer(s, c.strs, bf, 400));
+    {
+      bytes B = gen_text_buffer(s, c.strs, bf, 400);
+      std::vector<int64_t> targets;
+      for (auto& e : c.conds) collect_offset_targets(e, targets);
+      if (!targets.empty() && s.coin(60))
+      {
+        size_t n = s.range(1, 3);
+        for (size_t k = 0; k < n; k++)
+        {
+          int64_t t = targets[s.range(0, targets.size() - 1)];
+          place_at(B, (size_t) t, c.strs[s.range(0, c.strs.size() - 1)].pat);
+        }
+      }
+      c.bufs.push_back(B);
+    }
   }
   return check_case(c, ci, &s, &g);
 }
